@@ -7,6 +7,7 @@
 #[macro_use]
 mod core;
 mod csweep;
+mod docsweep;
 mod flavor;
 mod gsweep;
 mod lockstep;
